@@ -12,7 +12,7 @@ THEOREMS = ['Otel.C08.' + t for t in (
     'filter_looks_up_by_value', 'keyOf_eq_canon_filter', 'lastWrite_filter', 'keyOf_lookup', 'same_key_iff',
     'hash_of_equal_sets_equal',
     'seriesOf_self', 'overflow_folds_into_one_series', 'same_series_iff', 'one_series_per_attribute_set',
-    'series_le_limit', 'table_inv_record', 'table_inv_mergeEntry', 'limits_are_kept', 'default_limit', 'overflow_key',
+    'series_le_limit', 'series_le_limit_pos', 'table_inv_record', 'table_inv_mergeEntry', 'limits_are_kept', 'default_limit', 'overflow_key',
     'total_record', 'total_mergeEntry', 'total_mergeTables', 'overflow_conserves_total', 'overflow_conserves_total_counter',
     'series_exact_below_limit', 'series_exact_counter')] + [
     'Otel.Series.run_key_totals', 'Otel.Series.sinvK_collect',
